@@ -1117,3 +1117,98 @@ def c01_r8(ctx):
             ctx.viol((node.id, "foreign-history-in-closure"), "the history handed to the handler is not the captured one", node.where(b2, i2))
         else:
             ctx.ok()
+
+
+@rule("C01.R10", floor=2)
+def c01_r10(ctx):
+    """Every file state ruler stores for a path describes the file at that path: each store
+    into `FileInfo.file_state` is either the Ok payload of the state reader called on that
+    info's own path, or a FileState whose ticket is the hash just computed from that path
+    (Ok(Some) payload of the file-hash function / from_path on the same path) and whose
+    timestamp derives from get_modified of the same path - never a field kept from the state
+    of the file that was there before."""
+    W = WorkRoles(ctx.P)
+    hashers = {h.id for h in W.hash_fns()} | {f.id for f in W.prod_fns() if f.body.get("output", {}).get("s", "").startswith("std::result::Result<std::option::Option<ticket::Ticket>")}
+    readers = {f.id for f in W.prod_fns() if "Result<blob::FileState" in f.body.get("output", {}).get("s", "") and effects(ctx.P, f.id)}
+    partial = {}
+    for f in W.prod_fns():
+        for b in f.blocks:
+            if b["cleanup"]:
+                continue
+            for i, st in enumerate(b["stmts"]):
+                if st["k"] != "assign" or not st["place"]["proj"]:
+                    continue
+                pr = st["place"]["proj"]
+                fields = [e for e in pr if e["k"] == "field"]
+                if len(fields) >= 2 and fields[-2].get("name") == "file_state" and fields[-1].get("name") in ("timestamp", "ticket", "executable"):
+                    partial.setdefault((f.id, frozenset(f.origins_of_place({"local": st["place"]["local"], "proj": pr[:pr.index(fields[-2])]}))), {})[fields[-1]["name"]] = (f, b["i"], i)
+                    continue
+                if not fields or fields[-1].get("name") != "file_state" or "blob::FileState" not in fields[-1].get("ty", ""):
+                    continue
+                if any(e["k"] == "field" and e is not fields[-1] and e.get("name") in ("ticket", "timestamp", "executable") for e in pr):
+                    continue
+                # whole-state store `X.file_state = v`
+                base = f.origins_of_place({"local": st["place"]["local"], "proj": pr[:pr.index(fields[-1])]})
+                path_o = {o + (("field", "path"),) for o in base}
+                ctx.inst("file state stored in %s" % f.id, f.where(b["i"], i))
+                vo = f._rv_origins(st["rv"], (), b["i"], i, frozenset())
+                ok = bool(vo)
+                why = ""
+                for o in vo:
+                    if is_call(o) and ctx.P.local_targets(f.call_at[o[0][2]]) and ctx.P.local_targets(f.call_at[o[0][2]])[0] in readers \
+                            and o[1:] == (("variant", "Ok"), ("field", 0)):
+                        rd = f.call_at[o[0][2]]
+                        if f.origins_of_operand(rd.args[1]) != path_o:
+                            ok = False
+                            why = "read from another path"
+                    elif o[0][0] == "agg" and o[0][4] == "blob::FileState::FileState" and len(o) == 1:
+                        rv = f.blocks[o[0][2]]["stmts"][o[0][3]]["rv"]
+                        ops = dict(zip(rv["kind"]["fields"], rv["ops"]))
+                        to = f.origins_of_operand(ops["ticket"])
+                        t_ok = bool(to)
+                        for t in to:
+                            if is_call(t) and ctx.P.local_targets(f.call_at[t[0][2]]) and ctx.P.local_targets(f.call_at[t[0][2]])[0] in hashers \
+                                    and t[1:] == (("variant", "Ok"), ("field", 0), ("variant", "Some"), ("field", 0)):
+                                if f.origins_of_operand(f.call_at[t[0][2]].args[1]) != path_o:
+                                    t_ok = False
+                            else:
+                                t_ok = False
+                        so = f.origins_of_operand(ops["timestamp"])
+                        s_ok = bool(so)
+                        for x in so:
+                            if x[0][0] == "const":
+                                continue       # fallback 0 on an unreadable mtime
+                            if not (is_call(x, "system::util::get_timestamp") and x[1:] == (("variant", "Ok"), ("field", 0))):
+                                s_ok = False
+                                continue
+                            gt = f.call_at[x[0][2]]
+                            for y in f.origins_of_operand(gt.args[0]):
+                                if not (is_call(y, "system::System::get_modified") and f.origins_of_operand(f.call_at[y[0][2]].args[1]) == path_o):
+                                    s_ok = False
+                        if not t_ok:
+                            ok = False
+                            why = "its ticket is not the hash just computed from this path (derives from %s)" % sorted(map(fmt_origin, to))
+                        elif not s_ok:
+                            ok = False
+                            why = "its timestamp is not the modified time of this path"
+                    elif o[0][0] == "param" and f.id.startswith("current::") or o[0][0] == "call" and "remove" in o[0][3]:
+                        continue
+                    else:
+                        ok = False
+                        why = "it derives from %s" % fmt_origin(o)
+                if ok:
+                    ctx.ok()
+                else:
+                    ctx.viol((f.id, "stored-state-not-of-this-file"), "the file state stored for a target does not describe the file now at that path (%s): the table would pair one file's modified time with another file's hash, and the mtime shortcut then returns that foreign hash" % why, f.where(b["i"], i))
+    # field-by-field updates: a new timestamp without a new ticket pairs one file's mtime with another file's hash
+    for (fid, base), flds in partial.items():
+        f, bb, i = list(flds.values())[0]
+        ctx.inst("file state updated field by field in %s" % fid, f.where(bb, i))
+        if "timestamp" in flds and "ticket" not in flds:
+            f2, b2, i2 = flds["timestamp"]
+            ctx.viol((fid, "timestamp-without-ticket"), "the stored file state gets a new modified time but keeps the hash of the file that was there before: the mtime shortcut will return that foreign hash for the new file", f2.where(b2, i2))
+        elif "ticket" in flds and "timestamp" not in flds:
+            f2, b2, i2 = flds["ticket"]
+            ctx.viol((fid, "ticket-without-timestamp"), "the stored file state gets a new hash but keeps the modified time recorded for the previous file", f2.where(b2, i2))
+        else:
+            ctx.ok()
